@@ -132,6 +132,9 @@ func genC15(r *Rand, tier string, ord int) *Trial {
 			t.Params["s"], t.Params["e"] = strconv.Itoa(s), strconv.Itoa(e)
 			b, _ := json.Marshal(an)
 			t.Params["anno"] = string(b)
+			if r.Bool() {
+				t.Params["cli"] = "1"
+			}
 		} else {
 			t.Case.Opts.Aggregate = r.P(0.3)
 		}
@@ -325,7 +328,14 @@ func checkC15(t *Trial, ctx *Ctx) *Failure {
 		json.Unmarshal([]byte(t.Params["anno"]), &an)
 		v := t.Case
 		v.Opts.Start, v.Opts.End = s, e
-		res := ctx.Run(t, 1, &v)
+		vc := &v
+		if t.Params["cli"] == "1" {
+			// the windowed side through the real command line (flag parsing and reconciliation included)
+			if cc, ok := cliCase(&v); ok {
+				vc = cc
+			}
+		}
+		res := ctx.Run(t, 1, vc)
 		if f := mustOK(res); f != nil {
 			return f
 		}
